@@ -259,9 +259,9 @@ class BodyMixin:
     def _body(self):
         markup = None
         mp = MULTIPART_BOUNDARY_PATT.match(self.environ.get('CONTENT_TYPE', ''))
-        if mp is not None:
-            markup = MultipartMarkup(mp.group(1).strip('"'))
         try:
+            if mp is not None:
+                markup = MultipartMarkup(mp.group(1).strip('"'))
             body = _body_read(
                 self.environ['wsgi.input'].read,
                 self.config.max_memfile_size,
